@@ -1,0 +1,11 @@
+//go:build verif
+
+package transport
+
+// Contracts for the deductive checker in /verif (comment-only file, no declarations).
+
+//@ func (u *DoHTransport) Close() (err error)
+//@   props C18
+//@   requires u != nil
+//@   modifies *
+//@   ensures [C18:no-closer] old(u.closer) == nil ==> err == nil
